@@ -156,6 +156,18 @@ CLAIMED = {
         technique="symbolic execution of the real verb/compile functions on bounded-width tables with symbolic names + z3 (inductive step, data tokens + row-operation history)",
         note="trusted: pdtv + z3; LazyFrame axioms (filter/sort/slice/with_columns) and the SQL clause model; bound: table width <= 3",
     ),
+    "C14": dict(
+        category="other",
+        text="Bounded native enumeration plus two structural obligations: every rejection rule of the property (type errors, non-boolean filter/on, window/aggregate functions in filter/summarize/on, "
+        "nested aggregate/window, non-aggregated columns, unknown/hidden/foreign columns, duplicate names, grouped/same-origin/different-backend joins and unions, slice_head on grouped, markers "
+        "outside arrange) is instantiated at every syntactic position (top level, arithmetic, case value/default/condition, function argument, doubly nested, context kwargs, C.-references) after "
+        "four verb histories on Polars and SQLite; the verb call must raise the documented exception class, identically on both backends, and leave the input usable. iter_children / "
+        "map_children of every expression class must enumerate exactly the ColExpr-typed fields (what makes the rules hold wherever nested); the validation layer must not read the backend. "
+        "The converse (accepted => exports on Polars) is carried by the step obligations of C02/C06/C07/C09/C11.",
+        design_ref="DESIGN.md §5.14",
+        technique="rule x position x history x backend enumeration on the real verbs (native execution) + traversal-completeness contract + static scan",
+        note="bounded: ~130 rule/position instances x 4 histories x 2 backends on one concrete table; not a proof",
+    ),
 }
 
 NOT_YET = "check not built yet (engine under construction); will be claimed as soon as its obligations discharge"
